@@ -38,17 +38,40 @@ PROP = "C09"
 METHODS = ['copy', 'link', 'ref', 'copyout', 'extract', 'output', 'loopref', 'loopoutput']
 RESERVED = ['input', 'data', 'bin', 'conf']
 KEY_NESTED = "C09:manifest-nested-key-not-split-on-path-separator"
+KEY_STAGE_RE = "C09:stage-prefix-regex-not-anchored-name-starting-with-stageN-misparsed"
+KEY_ROOT_SLASH = "C09:compile-reference-doubles-slash-for-file-directly-under-root"
 
 # ----------------------------------------------------------------------------- generator
 
 _WORDS = ['gen', 'Sim', 'post-proc', 'a.b', 'k.l.m', 'comp2', 'x-1.y', 'Data', 'BIN', 'Conf', 'INPUT',
           'Input', 'data2', 'input-1', 'bin.x', 'conf.d', 'data.x', 'stage', 'stagex', 'mystage1', 'st.age0',
-          'stage7', 'a_b', 'A', 'lammps2', 'Stage1.x', 'x.stage2.y', '7zip', 'v1.0.2', 'a-', '_', 'z9-.q']
+          'stage7', 'a_b', 'A', 'lammps2', 'Stage1.x', 'x.stage2.y', '7zip', 'v1.0.2', 'a-', '_', 'z9-.q',
+          'stageX', 'stage1x', 'stage12abc', 'stage.y', 'stageX.y', 'stage1x.y', 'stage2-b.c', 'stage10x.v1.2',
+          'stage3_.out', 'stage0data.csv']
 _FOLDER_WORDS = ['hooks', 'data2', 'lib', 'a', 'Data', 'examples', 'src-1', 'my.dir', 'tools_2', 'x', 'Bin',
-                 'python3.9', 'A', 'inputs']
+                 'python3.9', 'A', 'inputs', 'stage', 'stageX', 'stage1x', 'stage7', 'stage1x.d', 'stage22data.v2',
+                 'stageX.d']
 _ALPHA = 'abcdefghijklmnopqrstuvwxyzABCDEFGHIJKLMNOPQRSTUVWXYZ'
 _ALNUM = _ALPHA + '0123456789'
-_STAGE_PREFIXED = re.compile(r'^stage[0-9]+')
+_STAGE_EXACT = re.compile(r'^stage[0-9]+$')
+_STAGE_START = re.compile(r'^stage([0-9]+)')
+
+
+def is_absolute_spelling(name):
+    """'stage<digits>.<something>' IS the absolute spelling of <something>: inherent ambiguity, never a name here."""
+    return '.' in name and bool(_STAGE_EXACT.match(name.split('.', 1)[0]))
+
+
+def stage_like_unanchored(name):
+    """A name such as 'stage1x.y' / 'stage2-b.c': the text before the first dot STARTS with stage<digits> but is
+    not a stage prefix.  Returns (digits as int, text after the first dot) or None.  Only used to classify."""
+    if '.' not in name:
+        return None
+    head, rest = name.split('.', 1)
+    m = _STAGE_START.match(head)
+    if m and not _STAGE_EXACT.match(head):
+        return int(m.group(1)), rest
+    return None
 
 
 def _rand_token(r, lo=1, hi=6, extra='_-'):
@@ -64,9 +87,9 @@ def _name_ok(name):
         return False
     if name.startswith('.') or name.endswith('.'):
         return False
-    # a name whose text before its first dot starts with stage<digits> IS (or is confusable with)
-    # an absolute spelling: inherent ambiguity of the syntax, excluded
-    if '.' in name and _STAGE_PREFIXED.match(name.split('.', 1)[0]):
+    # 'stage<digits>.x' IS an absolute spelling (inherent ambiguity of the syntax): excluded.  Names that merely
+    # start like one ('stage1x.y', 'stageX', 'stage') are legal component / folder names and are generated.
+    if is_absolute_spelling(name):
         return False
     return True
 
@@ -76,6 +99,11 @@ def gen_name(r):
         k = r.random()
         if k < 0.45:
             name = r.choice(_WORDS)
+        elif k < 0.52:
+            name = 'stage' + r.choice(['', 'X', '%d' % r.randint(0, 12), '%d%s' % (r.randint(0, 12), r.choice('xab_-'))])
+            name += r.choice(['', '', _rand_token(r, 1, 3)])
+            if r.random() < 0.6:
+                name += '.' + _rand_token(r, 1, 3)
         elif k < 0.75:
             name = _rand_token(r)
             if r.random() < 0.4:
@@ -124,7 +152,7 @@ def gen_context(r):
     manifest = {}
     for _ in range(r.choice([0, 1, 2, 2, 3, 4])):
         first = r.choice(_FOLDER_WORDS) if r.random() < 0.7 else _rand_token(r, 1, 5, '._-')
-        if first.strip('.') == '' or _STAGE_PREFIXED.match(first):
+        if first.strip('.') == '' or is_absolute_spelling(first):
             first = 'fld'
         key = first
         if r.random() < 0.45:
@@ -183,6 +211,10 @@ def mk_text(ref):
     return '%s:%s' % (head, ref['method'])
 
 
+def mk_path_of(ref):
+    return ref['name'] if ref['rest'] is None else ref['name'] + '/' + ref['rest']
+
+
 def gen_ref(r, ctx):
     """One reference with by-construction parts."""
     k = r.random()
@@ -225,10 +257,16 @@ def gen_ref(r, ctx):
         ref['rest'] = gen_path(r)
     elif k < 0.94:
         ref['kind'] = 'abs'
-        nseg = r.randint(2, 4)
-        ref['name'] = '/' + '/'.join(r.choice(['tmp', 'gpfs', 'a.b', 'data', 'stage0.x', 'u-1', 'opt'])
-                                      for _ in range(nseg - 1))
-        ref['rest'] = r.choice(['file.txt', 'dir', 'x.y.z', 'data'])
+        nseg = r.choice([1, 1, 2, 2, 3, 4])
+        segs = [r.choice(['tmp', 'gpfs', 'a.b', 'data', 'stage0.x', 'u-1', 'opt', 'stage1x.y']) for _ in range(nseg)]
+        # written as <directory>/<last segment>; a single segment has no directory part ('/tmp:link');
+        # a trailing slash is an empty last segment ('/tmp/dir/:ref')
+        if nseg == 1:
+            ref['name'], ref['rest'] = '/' + segs[0], None
+        else:
+            ref['name'], ref['rest'] = '/' + '/'.join(segs[:-1]), segs[-1]
+        if r.random() < 0.2:
+            ref['name'], ref['rest'] = mk_path_of(ref), ''
     else:
         ref['kind'] = 'var'
         ref['name'] = '%%(%s)s' % r.choice(['v', 'input-dir', 'my.var', 'DATA_ROOT', 'x1'])
@@ -468,6 +506,39 @@ def classify_known(ref, ctx, failure):
     return None
 
 
+def classify_stage_regex(ref, failure):
+    """Recorded mechanism: ParseProducerReference tests the text before the first dot with
+    re.match(r"stage([0-9]+)") - no end anchor - so a producer / folder name that merely STARTS with
+    stage<digits> and contains a dot ('stage1x.y') is read as component 'y' of stage 1.  Requires that
+    shape in the first path segment of the reference (relative spelling of it is involved in every failing
+    clause) and that the real parser returns exactly (digits, text after the first dot, hasIndex=True)."""
+    if ref['kind'] not in ('comp', 'manifest', 'appdep'):
+        return None
+    shape = stage_like_unanchored(ref['name'])
+    if shape is None:
+        return None
+    if tuple(mods()['FlowIR'].ParseProducerReference(ref['name'], 99)) != (shape[0], shape[1], True):
+        return None
+    if failure['clause'] == 'c1_roundtrip' and ref['explicit_stage'] is None:
+        if not str(failure['detail'].get('printed', '')).startswith('stage%d.%s' % shape):
+            return None
+    if failure['clause'] in ('c2_idempotent', 'top_level_folders', 'c1_method'):
+        return None
+    return KEY_STAGE_RE
+
+
+def classify_root_slash(ref, failure):
+    """Recorded mechanism: a file directly under '/' parses as (producer '/', file 'tmp') and
+    compile_reference joins them with another '/': '/tmp:link' prints as '//tmp:link'."""
+    if failure['clause'] != 'c1_roundtrip' or ref['kind'] != 'abs':
+        return None
+    path = ref['text'].rsplit(':', 1)[0]
+    if os.path.dirname(path) == '/' and failure['detail'].get('printed') == '/' + ref['text'] \
+            and failure['detail'].get('parts', [None, None])[1] == '/':
+        return KEY_ROOT_SLASH
+    return None
+
+
 def judge_and_report(ref, ctx, vname, w, do_validate=False):
     fails, hits, truth = judge(ref, ctx, do_validate)
     w.evaluated()
@@ -492,6 +563,8 @@ def judge_and_report(ref, ctx, vname, w, do_validate=False):
         key = None
         if f['clause'] not in ref_feed_failed or f['clause'] == 'top_level_folders':
             key = classify_known(ref, ctx, f)
+        if key is None:
+            key = classify_stage_regex(ref, f) or classify_root_slash(ref, f)
         if key is not None:
             # one mechanism re-observed thousands of times: list the first few per worker, count the rest
             _keyed[key] = _keyed.get(key, 0) + 1
@@ -554,14 +627,15 @@ def main():
                         "reserved-word-like,stage-like], file depth, method, expected class, context variant, manifest "
                         "has nested key) among pairs whose class the statement decides",
                    assumptions=[
-                       "producer names: no '/', ':', '%', brackets or blanks; not exactly a reserved folder name; names "
-                       "whose text before the first dot starts with 'stage<digits>' are not generated (they are, or are "
-                       "confusable with, absolute spellings)",
+                       "producer names: no '/', ':', '%', brackets or blanks; not exactly a reserved folder name; a name "
+                       "of the form 'stage<digits>.<rest>' is not generated (it IS the absolute spelling of <rest>); names "
+                       "that merely start like a stage prefix ('stage1x.y', 'stageX', 'stage') are generated",
                        "a component named like a non-reserved top-level folder is only referenced with an explicit "
                        "stage prefix (the relative spelling is documented as unsupported and is not judged)",
-                       "absolute paths have at least two segments; file paths have no empty, '.' or '..' segments",
+                       "absolute paths have 1-4 segments, optionally a trailing slash ('/' alone is not generated); file "
+                       "paths of component references have no empty, '.' or '..' segments",
                        "variables occupy the whole first path segment",
-                       "manifest keys do not look like 'stage<N>...'; application-dependency folder name = basename "
+                       "manifest keys are never of the form 'stage<digits>.<rest>'; application-dependency folder name = basename "
                        "without extension, lower-cased (documentation of application_dependency_to_name)",
                        "for references to folders only classification and self-consistency are judged, not how the "
                        "path is split between producer and file",
